@@ -58,8 +58,45 @@ let c06_case (s : sess) (r : rng) (d : bool) (p : spos) =
         bump "fen_spellings"
       | _ -> bump "fen_spelling_skipped_not_legal_consistent") !variants
 
+(* placement fields of maximal length: 32 men, no two adjacent empty squares in any rank (71 characters) *)
+let long_placement (r : rng) : spos option =
+  let a = empty_board () in
+  let men s = [ (s, King); (s, Queen); (s, Rook); (s, Rook); (s, Bishop); (s, Bishop); (s, Knight); (s, Knight) ] @ List.init 8 (fun _ -> (s, Pawn)) in
+  (* squares: alternate occupied / empty, the phase chosen per rank *)
+  let sqs = List.concat (List.init 8 (fun rk -> let ph = rand r 2 in List.init 4 (fun i -> rk * 8 + 2 * i + ph))) in
+  let pawn_ok q = q / 8 >= 1 && q / 8 <= 6 in
+  let rec place men sqs = match men with
+    | [] -> true
+    | (s, pc) :: rest ->
+      let cands = List.filter (fun q -> a.(q) = None && (pc <> Pawn || pawn_ok q)) sqs in
+      if cands = [] then false else begin a.(pick r cands) <- Some (s, pc); place rest sqs end in
+  (* pawns first (they cannot go everywhere) *)
+  let order = List.filter (fun (_, pc) -> pc = Pawn) (men White @ men Black) @ List.filter (fun (_, pc) -> pc <> Pawn) (men White @ men Black) in
+  if place order sqs then begin
+    let p = spos_of_array a (if chance r 1 2 then White else Black) ~half:(rand r 50) ~full:(1 + rand r 90) () in
+    if lc true p then Some p else None
+  end else None
+
 let run_c06 (s : sess) (r : rng) corpus quick nshards budget run_case =
   let n = (if budget > 0 then budget else if quick then 4000 else 150000) / nshards in
+  (* maximal-length placement fields *)
+  let found = ref 0 and tries = ref 0 in
+  while !found < (if quick then 6 else 200) && !tries < 4000 do
+    incr tries;
+    match long_placement r with
+    | Some p -> incr found; run_case s (fun () -> bump "source_long_placement"; c06_case s r true p; if std_expressible p then c06_case s r false p)
+    | None -> ()
+  done;
+  (* Chess960 KQkq with further rooks of the same colour elsewhere on the board (the outermost rook ON THE BACK RANK counts) *)
+  List.iter (fun (d, p) ->
+      run_case s (fun () ->
+          let a = Array.of_list p.s_board in
+          for _ = 1 to 1 + rand r 2 do
+            let q = 8 + rand r 48 in
+            if a.(q) = None then a.(q) <- Some ((if chance r 1 2 then White else Black), Rook)
+          done;
+          let p' = { p with s_board = Array.to_list a } in
+          if lc true p' then begin bump "source_xfen_extra_rooks"; c06_case s r true p' end)) (castling_family r ((if quick then 160 else 3000) / nshards));
   run_case s (fun () ->
       List.iter (fun d ->
           op_new s d "startpos";
@@ -100,7 +137,31 @@ let run_c07_reuse (s : sess) (r : rng) corpus quick nshards budget run_case =
         if not (same_model_state reused.cp fresh.cp) then fail_spec "set_fen on a used object differs from a fresh Position for %S" f2;
         if h1 <> h2 || reused.chist <> 0 then fail_spec "set_fen on a used object keeps history";
         if m1 <> m2 || fe1 <> fe2 then fail_spec "set_fen on a used object: legal moves / FEN differ from a fresh Position";
-        bump "reuse_pairs"; note_position s (spec_moves (sp_of s)))
+        bump "reuse_pairs"; note_position s (spec_moves (sp_of s)));
+    (* the object holds p1 loaded in one mode, untouched; the new FEN is the rendering of the same placement in the OTHER
+       mode (what get_fen(other mode) prints): character for character what the object would print, yet another position
+       as far as castling rooks are concerned *)
+    if i mod 3 = 0 then
+      run_case s (fun () ->
+          let fa = fen_string d1 p1 in
+          op_new s d1 fa;
+          (match toks (send s.d "fen") with
+           | [ "F"; fstd; fdfrc ] ->
+             let other = not d1 in
+             let f2 = unhexstr (if other then fdfrc else fstd) in
+             (match of_fen other (str_of_string f2) with
+              | Some q when lc other q ->
+                op_setfen s other f2;
+                let reused = obs_state s in
+                let m1 = send s.d "moves" and fe1 = send s.d "fen" in
+                op_new s other f2;
+                let fresh = obs_state s in
+                let m2 = send s.d "moves" and fe2 = send s.d "fen" in
+                if not (same_model_state reused.cp fresh.cp) then fail_spec "set_fen(%S, mode %b) on an object holding %S (mode %b) differs from a fresh Position" f2 other fa d1;
+                if m1 <> m2 || fe1 <> fe2 then fail_spec "set_fen(%S) on an object holding the same placement in the other mode: legal moves / FEN differ from a fresh Position" f2;
+                bump "reuse_cross_mode"
+              | _ -> bump "reuse_cross_mode_skipped")
+           | _ -> raise (Mismatch ("crash", "fen line"))))
   done
 
 (* ----- C09 repetition templates ----- *)
@@ -192,7 +253,7 @@ let run_c20_reject (s : sess) (r : rng) corpus quick nshards budget run_case =
       run_case s (fun () ->
           reset_log s.d;
           let a = Array.of_list p.s_board in
-          let kind = rand r 4 in
+          let kind = rand r 5 in
           let squares_of f = List.filter (fun q -> f a.(q)) (List.init 64 (fun i -> i)) in
           (match kind with
            | 0 -> (* missing king *)
@@ -201,6 +262,10 @@ let run_c20_reject (s : sess) (r : rng) corpus quick nshards budget run_case =
            | 1 -> (* duplicated king *)
              let s_ = if chance r 1 2 then White else Black in
              (match squares_of (fun c -> c = None) with [] -> () | l -> a.(pick r l) <- Some (s_, King))
+           | 4 -> (* one side without a king AND the other with two: the total is still two *)
+             let s_ = if chance r 1 2 then White else Black in
+             List.iter (fun q -> a.(q) <- None) (squares_of (fun c -> c = Some (s_, King)));
+             (match squares_of (fun c -> c = None) with [] -> () | l -> a.(pick r l) <- Some (opp_side s_, King))
            | 2 -> (* pawn on the first or eighth rank *)
              let q = (if chance r 1 2 then 0 else 56) + rand r 8 in
              if a.(q) = None || (match a.(q) with Some (_, King) -> false | _ -> true) then a.(q) <- Some ((if chance r 1 2 then White else Black), Pawn)
